@@ -2,7 +2,7 @@ def _sig(case, impl, pred):
     return pred.split(":")[1] if pred.startswith("FAIL:") else pred
 
 CONFIG = {
-    "modules": ["GoPlugin.Props.C01", "GoPlugin.Instance.C01"],
+    "modules": ["GoPlugin.Props.C01", "GoPlugin.Props.Hygiene", "GoPlugin.Instance.C01"],
     "scenario": "C01",
     "signature": _sig,
     "rule": "first lines: every single-field deviation from 4 valid baselines x 80 client configurations (exhaustive for that slice), "
